@@ -475,6 +475,34 @@ def _run_probe(case, ctx):
         ctx.count("out_of_domain_probes", "%s: %r -> %s" % (fmt, v, out))
     if fmt == "csv":
         _run_separator_probe(case, ctx, r)
+    if fmt == "aif":
+        _run_quote_probe(case, ctx, r)
+
+
+def _run_quote_probe(case, ctx, r):
+    """Free text with an apostrophe or a line break is the class the AIF writer's own quoting cannot always carry: such a value is
+    refused (with whatever error the reader has - tabulated) or comes back as it was; it never comes back with delimiters glued
+    on or pieces missing. A verdict, like the separator class of CSV."""
+    # (text that *begins or ends* with an apostrophe loses it on import - the reader strips the writer's quotes with str.strip -
+    # which the tabulated probes show; it lies outside the quantifier like all quoted text and is not made a verdict here)
+    texts = ["the sample wasn't degassed", "operators' notes", "it's 5 o'clock", "first line\nsecond line", "a 'b' c", "don't / won't"]
+    v = r.choice(texts)
+    where = r.choice(["metadata", "material-property"])
+    spec = gen.point_spec(r, n=3, units=None, extras=False, meta={"note_x": v} if where == "metadata" else {}, material_props={"note_x": v} if where != "metadata" else None)
+    try:
+        iso = gen.build_base(spec)
+    except Exception:
+        return
+    target = r.choice(["file", "string"])
+    st, back, stage = _export_import("aif", iso, target, "aif-q%d" % case["seed"])
+    ctx.case(["aif", "quote-probe", v, where, target])
+    if st != "ok":
+        ctx.count("quote_probes", "%s: refused at %s with %s" % (where, stage, "pgError" if _is_pg_error(back) else type(back).__name__))
+        return
+    got = (back.properties if where == "metadata" else back.material.properties).get("note_x", "<missing>")
+    if got != v or type(got) is not str:
+        ctx.violation("aif/quoted-text/silently-changed", "free text with an apostrophe / a line break was neither refused nor preserved", value=v, got=got, where=where, target=target)
+    ctx.count("quote_probes", "%s: preserved" % where)
 
 
 def _run_separator_probe(case, ctx, r):
